@@ -37,7 +37,8 @@ TLoad ==
 TSet ==
   /\ l <= Len(Tr.events)
   /\ Ev.path # "load"
-  /\ Assign(Ev.path, Ev.key, ValueOf)
+  /\ IF "key2" \in DOMAIN Ev THEN Assign2(Ev.path, Ev.key, ValueOf, Ev.key2, Ev.val2)
+                             ELSE Assign(Ev.path, Ev.key, ValueOf)
   /\ LET h == hist'[Len(hist')] IN
        /\ h.out = Ev.out
        /\ SeqToSet(Ev.changed) = h.changed
